@@ -150,6 +150,13 @@ class Emit:
         env = dict(env)
         for s in e["stmts"]:
             if s["k"] == "Let":
+                if s["pat"]["k"] == "Slice" and s.get("init") is not None and strip(s["init"])["k"] == "Array" and not s["pat"].get("slice") \
+                        and len(s["pat"].get("before", [])) + len(s["pat"].get("after", []) or []) == len(strip(s["init"])["elems"]):
+                    # `let [a, b, c] = [x, y, z];` (e.g. the parts array of a helper that was split off): each binding is that element
+                    for q, el_ in zip(list(s["pat"].get("before", [])) + list(s["pat"].get("after", []) or []), strip(s["init"])["elems"]):
+                        if q.get("k") == "Binding":
+                            env[q["name"]] = label(el_, env)
+                    continue
                 if s["pat"]["k"] == "Tuple" and s.get("init") is not None:
                     # `let (left, right) = brackets;` -- each binding is that component of the bound value
                     base = label(s["init"], env)
